@@ -1,6 +1,8 @@
 package main
 
 import (
+	"encoding/json"
+	"encoding/xml"
 	"errors"
 	"fmt"
 	"strings"
@@ -192,6 +194,14 @@ func caseVariantLong(s string, variant int, h uint64) string {
 }
 
 func runC10(c *rt.Ctx) {
+	callerEditsReturnedErrors(c, map[string]func() error{
+		"roman.DefaultParser[string](VIIIII, 0)":                 func() error { _, err := roman.DefaultParser("VIIIII", 0); return err },
+		"roman.DefaultParser[[]byte](IIX, 0)":                    func() error { _, err := roman.DefaultParser([]byte("IIX"), 0); return err },
+		"roman.DefaultParser[string](empty, DisableEmptyAsZero)": func() error { _, err := roman.DefaultParser("", roman.RuleDisableEmptyAsZero); return err },
+		"roman.Valid[string](abc, 0)":                            func() error { return roman.Valid("abc", 0) },
+		"roman.Parser variable(MMMM IV, 0)":                      func() error { _, err := roman.Parser([]byte("MMMM IV"), 0); return err },
+		"Number.UnmarshalText(XXXXX)":                            func() error { var n roman.Number; return n.UnmarshalText([]byte("XXXXX")) },
+	})
 	L := c.Pick(7, 9)
 	c.SetRule(fmt.Sprintf("every string over {I,V,X,L,C,D,M} of length 0..%d is enumerated once (exhaustive) in upper case, lower case and two hash-determined mixed-case renderings, each through DefaultParser[string|[]byte], Valid[string|[]byte] and UnmarshalText, with and without RuleDisableEmptyAsZero; ", L) +
 		"plus every single-byte substitution (256 values) and multi-byte case-fold look-alikes at each position of seeded valid numerals, and M-runs around the 128-byte limit. " +
@@ -423,6 +433,64 @@ func runC10(c *rt.Ctx) {
 			}
 		}
 		tripleHistories(c, steps)
+	}
+	{
+		// "UnmarshalText using global Parser function": a program that forbids the empty numeral everywhere configures
+		// the Parser variable with the rule added; absent text in every spelling (nil, empty, empty with capacity,
+		// an empty XML element, an empty JSON string) must then be refused and the receiver left alone
+		oldP := roman.Parser
+		calls := 0
+		roman.Parser = func(in []byte, r roman.Rule) (roman.Number, error) {
+			calls++
+			return roman.DefaultParser(in, r|roman.RuleDisableEmptyAsZero)
+		}
+		c.Serial("empty-forbidden-through-the-parser-variable", func(w *rt.W) {
+			type doc struct {
+				N roman.Number `xml:"n" json:"n"`
+			}
+			for name, f := range map[string]func(n *roman.Number) error{
+				"UnmarshalText(nil)":                 func(n *roman.Number) error { return n.UnmarshalText(nil) },
+				"UnmarshalText([]byte{})":            func(n *roman.Number) error { return n.UnmarshalText([]byte{}) },
+				"UnmarshalText(empty with capacity)": func(n *roman.Number) error { return n.UnmarshalText(make([]byte, 0, 16)) },
+				"UnmarshalText(empty sub-slice)":     func(n *roman.Number) error { return n.UnmarshalText([]byte("XIV")[3:]) },
+				"xml.Unmarshal(<n></n>)": func(n *roman.Number) error {
+					d := doc{N: *n}
+					err := xml.Unmarshal([]byte("<doc><n></n></doc>"), &d)
+					*n = d.N
+					return err
+				},
+				"xml.Unmarshal(<n/>)": func(n *roman.Number) error {
+					d := doc{N: *n}
+					err := xml.Unmarshal([]byte("<doc><n/></doc>"), &d)
+					*n = d.N
+					return err
+				},
+				"json.Unmarshal(\"\")": func(n *roman.Number) error {
+					d := doc{N: *n}
+					err := json.Unmarshal([]byte(`{"n":""}`), &d)
+					*n = d.N
+					return err
+				},
+			} {
+				before := calls
+				n := roman.Number(7)
+				var err error
+				panicked, msg := rt.Call(func() { err = f(&n) })
+				w.Eval(1)
+				args := rt.Args("path", name, "parser_calls", calls-before)
+				switch {
+				case panicked:
+					w.Fail("panic-empty-under-configured-parser", "emptyconf", args, "panic: "+firstLine(msg), "an error", "see key")
+				case err == nil:
+					w.Fail("empty-accepted-although-the-configured-parser-forbids-it", "emptyconf", args, fmt.Sprint("accepted, receiver=", uint64(n)), "an error, receiver 7", "the Parser variable adds RuleDisableEmptyAsZero to every call; UnmarshalText uses the Parser variable")
+				case n != 7:
+					w.Fail("receiver-changed-by-refused-empty", "emptyconf", args, fmt.Sprint(uint64(n)), "7", "a refused unmarshal changed the receiver")
+				}
+				w.ClassN("empty-forbidden-through-the-parser-variable", 1)
+			}
+		})
+		roman.Parser = oldP
+		c.Require("empty-forbidden-through-the-parser-variable", 7)
 	}
 	c.Require("single-byte-substitution", 100000)
 	c.Require("around-limit", 100)
